@@ -1393,6 +1393,18 @@ def m_map(it, f, *seqs):
 
 @model(filter)
 def m_filter(it, f, seq):
+    if isinstance(seq, SSeq) and f is not None:
+        # filter(pred, <symbolic sequence>): the same abstraction as [x for x in seq if pred(x)]
+        from .loops import _filter_seq
+
+        def pred(x):
+            it.pure += 1
+            try:
+                t = it.truth_term(it.call(f, (x,), {}))
+            finally:
+                it.pure -= 1
+            return z3.BoolVal(t) if isinstance(t, bool) else t
+        return _filter_seq(it, seq, pred, "list")
     out = []
     for x in iter_concrete(it, seq):
         if it.truth(x if f is None else it.call(f, (x,), {})):
